@@ -146,7 +146,29 @@ func argByName(info *types.Info, call *ast.CallExpr, name string) ast.Expr {
 			return call.Args[i]
 		}
 	}
+	// the parameter was renamed since the rules were written: use its position
+	if fn, ok := calleeObj(info, call).(*types.Func); ok {
+		if i := frozenParamIndex(fn, name, sig.Params().Len()); i >= 0 && i < len(call.Args) {
+			if sig.Variadic() && i == sig.Params().Len()-1 {
+				return nil
+			}
+			return call.Args[i]
+		}
+	}
 	return nil
+}
+
+func frozenParamIndex(fn *types.Func, name string, n int) int {
+	names, ok := frozenParams[fn.Origin().FullName()]
+	if !ok || len(names) != n {
+		return -1
+	}
+	for i, nm := range names {
+		if nm == name {
+			return i
+		}
+	}
+	return -1
 }
 
 func isErrorType(t types.Type) bool {
